@@ -37,4 +37,418 @@ def kernelCfg : Cfg :=
     sswapLayout := [("total", "total"), ("used", "used"), ("free", "free"),
       ("percent", "percent"), ("sin", "sin"), ("sout", "sout")] }
 
+
+/-! ## Text lemmas: the three renderers against the parsers -/
+
+theorem splitOn_lines (ls : List Bytes) (h : ∀ l ∈ ls, 10 ∉ l) :
+    splitOn 10 ((ls.map fun l => l ++ [10]).flatten) = ls ++ [[]] := by
+  induction ls with
+  | nil => simp [splitOn]
+  | cons l ls ih =>
+    have ih' := ih (fun x hx => h x (by simp [hx]))
+    simp only [List.map_cons, List.flatten_cons, List.append_assoc, List.singleton_append]
+    rw [splitOn_append 10 l _ (h l (by simp)), ih']
+    simp
+
+theorem linesOf_lines (ls : List Bytes) (h : ∀ l ∈ ls, 10 ∉ l) :
+    linesOf ((ls.map fun l => l ++ [10]).flatten) = ls := by
+  unfold linesOf
+  rw [splitOn_lines ls h]
+  simp
+
+theorem splitWsGo_spaces (n : Nat) (rest : Bytes) :
+    splitWsGo (spaces n ++ rest) [] = splitWsGo rest [] := by
+  induction n with
+  | zero => simp [spaces]
+  | succ n ih =>
+    have : spaces (n + 1) = 32 :: spaces n := by simp [spaces, List.replicate_succ]
+    rw [this]
+    simp only [List.cons_append, splitWsGo]
+    simp [isWs, ih]
+
+theorem splitWs_tok (t : Bytes) (n : Nat) (rest : Bytes) (ht : NoWs t) (hne : t ≠ []) :
+    splitWs (t ++ spaces (n + 1) ++ rest) = t :: splitWs rest := by
+  unfold splitWs
+  rw [List.append_assoc, splitWsGo_token t _ [] ht]
+  have : spaces (n + 1) = 32 :: spaces n := by simp [spaces, List.replicate_succ]
+  rw [this, List.cons_append, splitWsGo_ws 32 _ _ (by decide) (by simpa using hne)]
+  simp [splitWsGo_spaces]
+
+theorem splitWs_single (t : Bytes) (ht : NoWs t) (hne : t ≠ []) : splitWs t = [t] := by
+  unfold splitWs
+  have := splitWsGo_token t [] [] ht
+  simp only [List.append_nil] at this
+  rw [this]
+  cases hr : t.reverse with
+  | nil => simp at hr; exact absurd hr hne
+  | cons a as =>
+    have : t = (a :: as).reverse := by rw [← hr]; simp
+    simp [splitWsGo, this]
+
+
+theorem noWs_append {a b : Bytes} (ha : NoWs a) (hb : NoWs b) : NoWs (a ++ b) := by
+  intro c hc
+  rcases List.mem_append.mp hc with h | h
+  · exact ha c h
+  · exact hb c h
+
+theorem noWs_not_mem {a : Bytes} (ha : NoWs a) (c : Nat) (hc : isWs c = true) : c ∉ a := by
+  intro hm
+  have := ha c hm
+  simp [this] at hc
+
+theorem not_mem_spaces (n c : Nat) (hc : c ≠ 32) : c ∉ spaces n := by
+  simp [spaces, List.mem_replicate]
+  intro _ h; exact hc h
+
+/-- the key psutil sees: name plus colon -/
+def kv (f : Nat) (e : Entry) : Bytes × Nat := (e.name ++ [58], e.val * f)
+
+theorem noWs_key (e : Entry) (h : e.WF) : NoWs (e.name ++ [58]) :=
+  noWs_append h.2 (by intro c hc; simp at hc; subst hc; decide)
+
+theorem splitWs_entry (e : Entry) (h : e.WF) :
+    ∃ tl, splitWs (renderEntry e) = (e.name ++ [58]) :: renderDec e.val :: tl := by
+  unfold renderEntry
+  have hk := noWs_key e h
+  have hkne : e.name ++ [58] ≠ [] := by simp
+  have hd := renderDec_noWs e.val
+  have hdne := renderDec_ne_nil e.val
+  cases hu : e.unit with
+  | false =>
+    simp only [Bool.false_eq_true, if_false, List.append_nil]
+    rw [splitWs_tok _ _ _ hk hkne, splitWs_single _ hd hdne]
+    exact ⟨[], rfl⟩
+  | true =>
+    simp only [if_true]
+    have hkb : K " kB" = spaces (0 + 1) ++ [107, 66] := by decide
+    rw [hkb, List.append_assoc, splitWs_tok _ _ _ hk hkne, ← List.append_assoc,
+      splitWs_tok _ _ _ hd hdne]
+    exact ⟨_, rfl⟩
+
+theorem parseLine_entry (f : Nat) (e : Entry) (h : e.WF) :
+    parseLine ⟨0, 1, f⟩ (renderEntry e) = .ok (kv f e) := by
+  obtain ⟨tl, htl⟩ := splitWs_entry e h
+  unfold parseLine
+  simp only [htl]
+  simp [parseDec_renderDec, kv]
+
+theorem parseLines_entries (f : Nat) (es : List Entry) (h : ∀ e ∈ es, e.WF) (acc : Mems) :
+    parseLines ⟨0, 1, f⟩ (es.map renderEntry) acc = .ok ((es.map (kv f)).reverse ++ acc) := by
+  induction es generalizing acc with
+  | nil => simp [parseLines]
+  | cons e es ih =>
+    simp only [List.map_cons, parseLines, parseLine_entry f e (h e (by simp))]
+    rw [ih (fun x hx => h x (by simp [hx]))]
+    simp
+
+theorem nl_not_mem_entry (e : Entry) (h : e.WF) : 10 ∉ renderEntry e := by
+  unfold renderEntry
+  have h1 := noWs_not_mem h.2 10 (by decide)
+  have h2 := not_mem_spaces (e.pad + 1) 10 (by decide)
+  have h3 := renderDec_not_mem e.val 10 (by decide)
+  have h4 : 10 ∉ (if e.unit then K " kB" else []) := by
+    cases e.unit <;> decide
+  simp only [List.mem_append, not_or]
+  refine ⟨⟨⟨⟨h1, by decide⟩, h2⟩, h3⟩, h4⟩
+
+theorem parseMeminfo_render (f : Nat) (es : List Entry) (h : ∀ e ∈ es, e.WF) :
+    parseMeminfo ⟨0, 1, f⟩ (renderMeminfo es) = .ok ((es.map (kv f)).reverse) := by
+  unfold parseMeminfo renderMeminfo
+  have : (es.map fun e => renderEntry e ++ [10]) = (es.map renderEntry).map fun l => l ++ [10] := by
+    simp
+  rw [this, linesOf_lines _ (by
+    intro l hl
+    obtain ⟨e, he, rfl⟩ := List.mem_map.mp hl
+    exact nl_not_mem_entry e (h e he))]
+  rw [parseLines_entries f es h]
+  simp
+
+theorem lookup_kv (f : Nat) (l : List Entry) (k : Bytes) :
+    (l.map (kv f)).lookup (k ++ [58]) = (l.find? (fun e => e.name == k)).map (fun e => e.val * f) := by
+  induction l with
+  | nil => simp
+  | cons e l ih =>
+    by_cases hk : e.name = k
+    · subst hk; simp [kv]
+    · have h1 : (k ++ [58] == e.name ++ [58]) = false := by
+        simp only [beq_eq_false_iff_ne, ne_eq]
+        intro he; exact hk (List.append_cancel_right he).symm
+      have h2 : (e.name == k) = false := by simpa using hk
+      simp only [List.map_cons, kv, List.lookup, h1, List.find?_cons, h2]
+      exact ih
+
+/-- the bridge: what `mems.get(key)` sees after parsing the rendered file is the abstract map -/
+theorem lookup_parsed (f : Nat) (es : List Entry) (k : Bytes) :
+    ((es.map (kv f)).reverse).lookup (k ++ [58])
+      = ((MemInfo.ofEntries es).get k).map (· * f) := by
+  rw [← List.map_reverse, lookup_kv]
+  simp [MemInfo.ofEntries, Option.map_map, Function.comp_def]
+
+
+/-! ### /proc/zoneinfo -/
+
+theorem lstripWs_spaces (n : Nat) (s : Bytes) : lstripWs (spaces n ++ s) = lstripWs s := by
+  induction n with
+  | zero => simp [spaces]
+  | succ n ih =>
+    have : spaces (n + 1) = 32 :: spaces n := by simp [spaces, List.replicate_succ]
+    rw [this]
+    simp only [List.cons_append, lstripWs]
+    simp [isWs, ih]
+
+theorem lstripWs_cons (c : Nat) (s : Bytes) (hc : isWs c = false) : lstripWs (c :: s) = c :: s := by
+  simp [lstripWs, hc]
+
+theorem rstripWs_append_noWs (x y : Bytes) (hy : y ≠ []) (hn : NoWs y) :
+    rstripWs (x ++ y) = x ++ y := by
+  unfold rstripWs
+  rw [List.reverse_append]
+  cases hr : y.reverse with
+  | nil => simp at hr; exact absurd hr hy
+  | cons c r =>
+    have hc : isWs c = false := hn c (by
+      have : c ∈ y.reverse := by rw [hr]; simp
+      simpa using this)
+    rw [List.cons_append, lstripWs_cons _ _ hc, ← List.cons_append, ← hr, ← List.reverse_append]
+    simp
+
+theorem stripWs_spaces (n : Nat) (s : Bytes) : stripWs (spaces n ++ s) = stripWs s := by
+  unfold stripWs
+  rw [lstripWs_spaces]
+
+theorem stripWs_low (i p v : Nat) :
+    stripWs (renderZLine (.low i p v)) = K "low" ++ spaces (p + 1) ++ renderDec v := by
+  show stripWs (spaces i ++ K "low" ++ spaces (p + 1) ++ renderDec v) = _
+  rw [List.append_assoc, List.append_assoc, List.append_assoc, stripWs_spaces]
+  unfold stripWs
+  have : K "low" ++ (spaces (p + 1) ++ renderDec v) = 108 :: ([111, 119] ++ (spaces (p + 1) ++ renderDec v)) := by
+    simp [K]
+  rw [this, lstripWs_cons _ _ (by decide), ← this, ← List.append_assoc]
+  exact rstripWs_append_noWs _ _ (renderDec_ne_nil v) (renderDec_noWs v)
+
+theorem noWs_low : NoWs (K "low") := by
+  intro c hc
+  have : c = 108 ∨ c = 111 ∨ c = 119 := by simpa [K] using hc
+  rcases this with h | h | h <;> subst h <;> decide
+
+theorem watermarkLow_render (zs : List ZLine) (h : ∀ z ∈ zs, z.WF) :
+    watermarkLow kernelCfg (zs.map renderZLine) = .ok (lowSum zs) := by
+  induction zs with
+  | nil => simp [watermarkLow, lowSum]
+  | cons z zs ih =>
+    have ih' := ih (fun x hx => h x (by simp [hx]))
+    cases z with
+    | other i b =>
+      have hw := (h (.other i b) (by simp)).2
+      simp only [List.map_cons, watermarkLow, lowSum]
+      have hs : stripWs (renderZLine (.other i b)) = stripWs b := by
+        simp [renderZLine, stripWs_spaces]
+      have hp : kernelCfg.lowPrefix = K "low" := rfl
+      rw [hs, hp, hw]
+      simpa using ih'
+    | low i p v =>
+      simp only [List.map_cons, watermarkLow, lowSum]
+      rw [stripWs_low]
+      have hp : kernelCfg.lowPrefix = K "low" := rfl
+      have hi : kernelCfg.lowIdx = 1 := rfl
+      have hsw : startsWith (K "low") (K "low" ++ spaces (p + 1) ++ renderDec v) = true := by
+        simp [startsWith, K]
+      have hsp : splitWs (K "low" ++ spaces (p + 1) ++ renderDec v) = [K "low", renderDec v] := by
+        rw [splitWs_tok _ _ _ noWs_low (by decide),
+          splitWs_single _ (renderDec_noWs v) (renderDec_ne_nil v)]
+      rw [hp, hi, hsw, hsp]
+      simp [parseDec_renderDec, ih']
+
+theorem nl_not_mem_zline (z : ZLine) (h : z.WF) : 10 ∉ renderZLine z := by
+  cases z with
+  | other i b =>
+    simp only [renderZLine, List.mem_append, not_or]
+    exact ⟨not_mem_spaces i 10 (by decide), h.1⟩
+  | low i p v =>
+    simp only [renderZLine, List.mem_append, not_or]
+    exact ⟨⟨⟨not_mem_spaces i 10 (by decide), by decide⟩, not_mem_spaces _ 10 (by decide)⟩,
+      renderDec_not_mem v 10 (by decide)⟩
+
+theorem watermarkLow_zoneinfo (zs : List ZLine) (h : ∀ z ∈ zs, z.WF) :
+    watermarkLow kernelCfg (linesOf (renderZoneinfo zs)) = .ok (lowSum zs) := by
+  unfold renderZoneinfo
+  have : (zs.map fun z => renderZLine z ++ [10]) = (zs.map renderZLine).map fun l => l ++ [10] := by
+    simp
+  rw [this, linesOf_lines _ (by
+    intro l hl
+    obtain ⟨z, hz, rfl⟩ := List.mem_map.mp hl
+    exact nl_not_mem_zline z (h z hz))]
+  exact watermarkLow_render zs h
+
+
+/-! ### /proc/vmstat -/
+
+theorem stripWs_noWs (s : Bytes) (h : NoWs s) : stripWs s = s := by
+  cases s with
+  | nil => simp [stripWs, rstripWs, lstripWs]
+  | cons c r =>
+    unfold stripWs
+    rw [lstripWs_cons _ _ (h c (by simp))]
+    have := rstripWs_append_noWs [] (c :: r) (by simp) h
+    simpa using this
+
+theorem isPrefixOf_sep (P n rest : Bytes) (c : Nat) (hc : c ∉ P)
+    (h : P.isPrefixOf (n ++ c :: rest) = true) : P.isPrefixOf n = true := by
+  induction P generalizing n with
+  | nil => simp
+  | cons a P ih =>
+    cases n with
+    | nil =>
+      simp only [List.nil_append, List.isPrefixOf, Bool.and_eq_true, beq_iff_eq] at h
+      exact absurd h.1 (fun e => hc (by simp [e]))
+    | cons b n =>
+      simp only [List.cons_append, List.isPrefixOf, Bool.and_eq_true, beq_iff_eq] at h ⊢
+      exact ⟨h.1, ih n (fun m => hc (by simp [m])) h.2⟩
+
+theorem isPrefixOf_self_append (P rest : Bytes) : P.isPrefixOf (P ++ rest) = true := by
+  induction P with
+  | nil => simp
+  | cons a P ih => simp [ih]
+
+structure VWF (vs : List VLine) : Prop where
+  names : ∀ l ∈ vs, l.name ≠ [] ∧ NoWs l.name
+  /-- no other counter's name begins with `pswpin` / `pswpout` -/
+  noClash : ∀ l ∈ vs, (startsWith (K "pswpin") l.name = true → l.name = K "pswpin")
+                    ∧ (startsWith (K "pswpout") l.name = true → l.name = K "pswpout")
+  nodup : (vs.map (·.name)).Nodup
+
+theorem VWF.tail {l : VLine} {vs : List VLine} (h : VWF (l :: vs)) : VWF vs :=
+  ⟨fun x hx => h.names x (by simp [hx]), fun x hx => h.noClash x (by simp [hx]),
+   (List.nodup_cons.mp h.nodup).2⟩
+
+theorem vmstatField_render (l : VLine) (h : NoWs l.name) (f : Nat) :
+    vmstatField 1 f (renderVLine l) = .ok (l.val * f) := by
+  unfold vmstatField renderVLine
+  have h32 : 32 ∉ l.name := noWs_not_mem h 32 (by decide)
+  rw [List.append_assoc, List.singleton_append, splitOn_append 32 _ _ h32,
+    splitOn_noSep 32 _ (renderDec_not_mem l.val 32 (by decide))]
+  simp [pyInt?, stripWs_noWs _ (renderDec_noWs l.val), parseDec_renderDec]
+
+theorem startsWith_line (P : Bytes) (l : VLine) (h32 : 32 ∉ P) :
+    startsWith P (renderVLine l) = startsWith P l.name := by
+  unfold startsWith renderVLine
+  cases hp : P.isPrefixOf l.name with
+  | true =>
+    obtain ⟨t, ht⟩ := List.isPrefixOf_iff_prefix.mp hp
+    rw [← ht, List.append_assoc, List.append_assoc]
+    exact isPrefixOf_self_append P _
+  | false =>
+    cases hq : P.isPrefixOf (l.name ++ [32] ++ renderDec l.val) with
+    | false => rfl
+    | true =>
+      rw [List.append_assoc, List.singleton_append] at hq
+      rw [isPrefixOf_sep P _ _ 32 h32 hq] at hp
+      exact absurd hp (by simp)
+
+def pairUp : Option Nat → Option Nat → Option (Nat × Nat)
+  | some a, some b => some (a, b)
+  | _, _ => none
+
+theorem vmstatLoop_render (vs : List VLine) (hw : VWF vs) (sin sout : Option Nat)
+    (h0 : ¬ (sin.isSome = true ∧ sout.isSome = true))
+    (h1 : sin.isSome = true → K "pswpin" ∉ vs.map (·.name))
+    (h2 : sout.isSome = true → K "pswpout" ∉ vs.map (·.name)) :
+    vmstatLoop kernelCfg (vs.map renderVLine) sin sout =
+      .ok (pairUp (sin <|> (vmstatGet vs (K "pswpin")).map (· * 4096))
+                  (sout <|> (vmstatGet vs (K "pswpout")).map (· * 4096))) := by
+  induction vs generalizing sin sout with
+  | nil =>
+    cases sin <;> cases sout <;> simp_all [vmstatLoop, vmstatGet, pairUp]
+  | cons l vs ih =>
+    have hn := (hw.names l (by simp)).2
+    have hcl := hw.noClash l (by simp)
+    have hnd := List.nodup_cons.mp hw.nodup
+    have hsin : startsWith kernelCfg.sinPrefix (renderVLine l) = startsWith (K "pswpin") l.name :=
+      startsWith_line _ l (by decide)
+    have hsout : startsWith kernelCfg.soutPrefix (renderVLine l) = startsWith (K "pswpout") l.name :=
+      startsWith_line _ l (by decide)
+    have hfi : vmstatField kernelCfg.sinIdx kernelCfg.sinFactor (renderVLine l) = .ok (l.val * 4096) :=
+      vmstatField_render l hn 4096
+    have hfo : vmstatField kernelCfg.soutIdx kernelCfg.soutFactor (renderVLine l) = .ok (l.val * 4096) :=
+      vmstatField_render l hn 4096
+    simp only [List.map_cons, vmstatLoop, hsin, hsout, hfi, hfo]
+    by_cases hin : l.name = K "pswpin"
+    · -- the pswpin line
+      have hs : startsWith (K "pswpin") l.name = true := by rw [hin]; decide
+      have hsinNone : sin = none := by
+        cases sin with
+        | none => rfl
+        | some a => exact absurd (by simp [hin]) (h1 rfl)
+      subst hsinNone
+      have hgi : vmstatGet (l :: vs) (K "pswpin") = some l.val := by simp [vmstatGet, hin]
+      have hgo : vmstatGet (l :: vs) (K "pswpout") = vmstatGet vs (K "pswpout") := by
+        have : (l.name == K "pswpout") = false := by rw [hin]; decide
+        simp [vmstatGet, this]
+      simp only [hs, if_true, hgi, hgo]
+      cases sout with
+      | some b => simp [pairUp]
+      | none =>
+        have hnot : K "pswpin" ∉ vs.map (·.name) := by rw [← hin]; exact hnd.1
+        have := ih hw.tail (some (l.val * 4096)) none (by simp) (fun _ => hnot) (by simp)
+        simp only [this]
+        have hg : vmstatGet vs (K "pswpin") = none := by
+          simp only [vmstatGet, Option.map_eq_none_iff, List.find?_eq_none]
+          intro x hx hxe
+          exact hnot (by simp only [List.mem_map]; exact ⟨x, hx, by simpa using hxe⟩)
+        simp
+    · have hs : startsWith (K "pswpin") l.name = false := by
+        cases h : startsWith (K "pswpin") l.name with
+        | false => rfl
+        | true => exact absurd (hcl.1 h) hin
+      have hgi : vmstatGet (l :: vs) (K "pswpin") = vmstatGet vs (K "pswpin") := by
+        have : (l.name == K "pswpin") = false := by simpa using hin
+        simp [vmstatGet, this]
+      by_cases hout : l.name = K "pswpout"
+      · have hso : startsWith (K "pswpout") l.name = true := by rw [hout]; decide
+        have hsoutNone : sout = none := by
+          cases sout with
+          | none => rfl
+          | some a => exact absurd (by simp [hout]) (h2 rfl)
+        subst hsoutNone
+        have hgo : vmstatGet (l :: vs) (K "pswpout") = some l.val := by simp [vmstatGet, hout]
+        simp only [hs, hso, if_true, hgi, hgo, Bool.false_eq_true, if_false]
+        cases sin with
+        | some a => simp [pairUp]
+        | none =>
+          have hnot : K "pswpout" ∉ vs.map (·.name) := by rw [← hout]; exact hnd.1
+          have := ih hw.tail none (some (l.val * 4096)) (by simp) (by simp) (fun _ => hnot)
+          simp only [this]
+          simp
+      · have hso : startsWith (K "pswpout") l.name = false := by
+          cases h : startsWith (K "pswpout") l.name with
+          | false => rfl
+          | true => exact absurd (hcl.2 h) hout
+        have hgo : vmstatGet (l :: vs) (K "pswpout") = vmstatGet vs (K "pswpout") := by
+          have : (l.name == K "pswpout") = false := by simpa using hout
+          simp [vmstatGet, this]
+        simp only [hs, hso, hgi, hgo, Bool.false_eq_true, if_false]
+        have := ih hw.tail sin sout h0 (fun h => fun m => h1 h (by simp [m]))
+          (fun h => fun m => h2 h (by simp [m]))
+        cases sin <;> cases sout <;> simp_all
+
+theorem nl_not_mem_vline (l : VLine) (h : NoWs l.name) : 10 ∉ renderVLine l := by
+  simp only [renderVLine, List.mem_append, not_or]
+  exact ⟨⟨noWs_not_mem h 10 (by decide), by decide⟩, renderDec_not_mem l.val 10 (by decide)⟩
+
+theorem vmstatLoop_vmstat (vs : List VLine) (hw : VWF vs) :
+    vmstatLoop kernelCfg (linesOf (renderVmstat vs)) none none =
+      .ok (pairUp ((vmstatGet vs (K "pswpin")).map (· * 4096))
+                  ((vmstatGet vs (K "pswpout")).map (· * 4096))) := by
+  unfold renderVmstat
+  have : (vs.map fun l => renderVLine l ++ [10]) = (vs.map renderVLine).map fun l => l ++ [10] := by
+    simp
+  rw [this, linesOf_lines _ (by
+    intro l hl
+    obtain ⟨z, hz, rfl⟩ := List.mem_map.mp hl
+    exact nl_not_mem_vline z (hw.names z hz).2)]
+  have := vmstatLoop_render vs hw none none (by simp) (by simp) (by simp)
+  simpa using this
+
+
 end Psutil.C08
